@@ -177,7 +177,9 @@ Definition eng_op (name : bytes) (now : Z) (d : db) (a : list tok) : list tok * 
     match a with
     | [TB k; TI cursor; TI hp; TB p; TI count; TI nov] =>
         match eng_hscan now d k cursor (opt_tok hp p) count (negb (nov =? 0)) with
-        | (Some (c, l), d') => (TI 1 :: TI c :: map TB l, d')
+        | (Some (c, l), d') =>
+            (* canonical order (the harness sorts too): by field; the order inside a page is hash order *)
+            (TI 1 :: TI c :: map TB (if nov =? 0 then flat_pairs false (psort (tok_pairs (map TB l))) else bsort l), d')
         | (None, d') => ([TI 0], d')
         end
     | _ => ([TB (bs "BADOP")], d)
@@ -186,7 +188,7 @@ Definition eng_op (name : bytes) (now : Z) (d : db) (a : list tok) : list tok * 
     match a with
     | [TB k; TI cursor; TI hp; TB p; TI count] =>
         match eng_sscan now d k cursor (opt_tok hp p) count with
-        | (Some (c, l), d') => (TI 1 :: TI c :: map TB l, d')
+        | (Some (c, l), d') => (TI 1 :: TI c :: map TB (bsort l), d')
         | (None, d') => ([TI 0], d')
         end
     | _ => ([TB (bs "BADOP")], d)
